@@ -304,7 +304,7 @@ pub fn run(ctx: &Ctx) -> Evidence {
         ev.count("events_on_own_entries_or_server_counters", obs.events_on_bookkeeping);
         ev.count("attacker_sessions_ended", obs.sessions_ended);
     });
-    let sequences = ctx.tier.pick(60_000usize, 400_000usize);
+    let sequences = ctx.tier.pick(60_000usize, 2_000_000usize);
     let base = Rng::new(ctx.seed);
     par_shards(&mut ev, 64, |shard, ev| {
         let runner = Runner::new(false);
